@@ -64,6 +64,14 @@ def gen_matrix(ctx):
     out.append(dict(film=films[0], holes=holesets[1], terminals=termsets[1], mesh=dict(max_edge_length=0.8), xi=1.0))
     out.append(dict(film=films[0], holes=holesets[3], terminals=termsets[2], mesh=dict(max_edge_length=0.7, smooth=5), xi=0.5))
     out.append(dict(film=films[8], holes=[], terminals=termsets[1], mesh=dict(), xi=2.0, units="nm"))
+    # holes that carry the documented option mesh=False: given to the constructor, or inherited from a polygon that was
+    # once a terminal of another Device (Device.__init__ sets it in place; translate / copy / scale propagate it).
+    # They are holes of the device all the same: the mesh must leave them out.
+    for n, flag in enumerate(["ctor", "terminal-translate", "terminal-copy", "terminal-scale"]):
+        hs = [dict(kind="box", w=0.8, h=0.5, points=12, center=(-0.8, 0.3), mesh_flag=flag)]
+        if n % 2:
+            hs.append(dict(kind="circle", r=0.4, points=14, center=(0.9, -0.3)))
+        out.append(dict(film=films[0], holes=hs, terminals=termsets[n % 3], mesh=meshes[n % 2], xi=xis[n % 3]))
     # a square with a fine mesh: Triangle puts right-angled triangles at the corners (circumcentre on the boundary edge)
     out.append(dict(film=dict(kind="box", w=4, h=4, points=52), holes=[], terminals=[], mesh=dict(min_points=300), xi=1.0))
     # ... and seeded random combinations
@@ -75,6 +83,8 @@ def gen_matrix(ctx):
         if "points" in f:
             f["points"] = f["points"] + rnd.choice([0, 4, 9])
         hs = copy.deepcopy(rnd.choice(holesets))
+        if hs and rnd.random() < 0.3:
+            hs[rnd.randrange(len(hs))]["mesh_flag"] = rnd.choice(["ctor", "terminal-translate", "terminal-copy", "terminal-scale"])
         for h in hs:
             h["center"] = (round(h["center"][0] + rnd.uniform(-0.2, 0.2), 3), round(h["center"][1] + rnd.uniform(-0.2, 0.2), 3))
         box_film = f["kind"] == "box" and not f.get("angle") and f["w"] == 5 and not f.get("minus")
@@ -176,12 +186,18 @@ def run(ctx):
     ctx.cov["generated_stats"] = {
         "meshes": len(gen), "accepted": len(acc_g), "sites_total": sum(t["stats"]["sites"] for t in gen),
         "sites_well_centred": sum(t["stats"]["well_centred_sites"] for t in gen),
-        "with_holes": sum(1 for t in gen if t["holes"]), "with_terminals": sum(1 for t in gen if t["TERM"]),
+        "with_holes": sum(1 for t in gen if t["holes"]),
+        "accepted_with_a_hole_flagged_mesh_False": sum(1 for n in acc_g if not all(gen[n].get("hole_mesh_flags", [True]))),
+        "with_terminals": sum(1 for t in gen if t["TERM"]),
         "not_everywhere_well_centred": sum(1 for t in gen if t["stats"]["well_centred_sites"] < t["stats"]["sites"]),
         "max_sites": max([t["stats"]["sites"] for t in gen] or [0])}
     if not ctx.violations:
         if not any(t["holes"] for t in okg) or not any(t["TERM"] for t in okg) or not any(t["holes"] >= 2 for t in okg):
             raise core.MachineryFailure("C07: no accepted generated mesh with holes / two holes / terminals (vacuous)")
+        for flag in ("ctor", "terminal-translate", "terminal-copy", "terminal-scale"):
+            hit = [t for t in okg if f'"mesh_flag": "{flag}"' in t["key"]]
+            if not hit or all(all(t["hole_mesh_flags"]) for t in hit):
+                raise core.MachineryFailure(f"C07: no accepted mesh whose hole carries mesh=False through '{flag}' (vacuous)")
     for n in sorted(acc_e)[:1]:
         ctx.sample({"exact instance": exact[n]["key"], "P": exact[n]["P"], "T": exact[n]["T"],
                     "dual/edge (x1e6)": exact[n]["ob"]["R"], "areas (x1e6)": exact[n]["ob"]["A"]})
